@@ -165,12 +165,16 @@ type params struct {
 	Det      string // ideal | tracked
 	Bound    int    // deviation bound of the DFS for this unit (-1: unbounded)
 	Lag      int    // PP: how often the L1 info querier may answer "leaf not indexed yet" while an insertion log is parsed
+	RPCErr   int    // how many RPCs of the L2 client may fail transiently (an opaque transport error), at any position
 }
 
 func (p params) String() string {
 	s := fmt.Sprintf("%s chain[%s]", p.Mode, evs(p.Hist))
 	if p.Fork != nil {
 		s += fmt.Sprintf(" fork@%d[%s] detector=%s", p.Fork.From, evs(p.Fork.Blocks), p.Det)
+	}
+	if p.RPCErr > 0 {
+		s += fmt.Sprintf(" rpc-errors<=%d", p.RPCErr)
 	}
 	if p.Lag > 0 {
 		s += fmt.Sprintf(" l1info-lag<=%d", p.Lag)
@@ -237,6 +241,9 @@ func units(tier string) []mc.Unit {
 	var us []mc.Unit
 	add := func(p params) {
 		name := fmt.Sprintf("%s|%s|R%d", p.Mode, evs(p.Hist), p.Restarts)
+		if p.RPCErr > 0 {
+			name += fmt.Sprintf("|E%d", p.RPCErr)
+		}
 		if p.Fork != nil {
 			name += fmt.Sprintf("|fork@%d:%s|%s", p.Fork.From, evs(p.Fork.Blocks), p.Det)
 		}
@@ -250,6 +257,10 @@ func units(tier string) []mc.Unit {
 					lag = 1
 				}
 				add(params{Mode: cl.Mode, Hist: h, Restarts: cl.Restarts, Bound: cl.Bound, Lag: lag})
+				if cl.N <= 2 || (tier == "thorough" && cl.N <= 3) {
+					// the same histories with one transient RPC failure at any call (fewer restarts: the product is large)
+					add(params{Mode: cl.Mode, Hist: h, Restarts: min(cl.Restarts, 1), Bound: cl.Bound, RPCErr: 1})
+				}
 				continue
 			}
 			for f := uint64(1); f <= uint64(cl.N); f++ {
@@ -424,6 +435,7 @@ type world struct {
 	}
 	firstPoll    bool
 	lagLeft      int // how many more times the L1 info querier may answer "not indexed yet"
+	rpcErrLeft   int // how many more RPCs of the L2 client may fail
 	restartsLeft int
 	forked       bool
 	notified     bool
@@ -502,6 +514,7 @@ func run(c *mc.Ctx, u mc.Unit) {
 		l1.sched = w.sched
 		w.lagLeft = p.Lag
 	}
+	w.rpcErrLeft = p.RPCErr
 
 	dir := scratchDir()
 	dbPath := filepath.Join(dir, "lastgersync.sqlite")
@@ -910,6 +923,15 @@ func (w *world) l2Gate(g *act.Gate) (stop bool) {
 	}
 	if w.notifyPending() && w.c.Bool("detector-check-before-this-rpc") {
 		w.doNotify(g)
+		return false
+	}
+	if w.rpcErrLeft > 0 && w.c.Bool("this-rpc-fails-once") {
+		// an opaque transport error: the call has no effect and the component retries (retry limit disabled)
+		w.rpcErrLeft--
+		w.tr("%s-fails", g.Op)
+		w.c.Witness("rpc_errors_injected")
+		w.c.Transition(1)
+		w.sched.Release(g, act.Directive{Err: errors.New("verif: transient rpc error")})
 		return false
 	}
 	if isWait {
